@@ -57,15 +57,17 @@ def to_xsd(node, version='1.0'):
 
 
 def schema_text(shape, open_content=None):
-    """open_content: None | ('interleave'|'suffix', wildcard token)  (XSD 1.1)"""
+    """open_content: None | ('interleave'|'suffix', wildcard token[, processContents])  (XSD 1.1).
+    The schema blocks substitutions by default and the head element h lifts the block explicitly (block=""): the
+    effective value for h is the empty set, so its member m substitutes it as without any default."""
     oc = ''
     if open_content:
-        oc = '<xs:openContent mode="%s"><xs:any namespace="%s" processContents="lax"/></xs:openContent>' % (
-            open_content[0], WILD[open_content[1]][0])
-    globs = ''.join('<xs:element name="%s" type="xs:string"/>' % n for n in ('a', 'b', 'c', 'h'))
+        oc = '<xs:openContent mode="%s"><xs:any namespace="%s" processContents="%s"/></xs:openContent>' % (
+            open_content[0], WILD[open_content[1]][0], open_content[2] if len(open_content) > 2 else 'lax')
+    globs = ''.join('<xs:element name="%s" type="xs:string"%s/>' % (n, ' block=""' if n == 'h' else '') for n in ('a', 'b', 'c', 'h'))
     globs += '<xs:element name="m" type="xs:string" substitutionGroup="h"/>'
     return ('<xs:schema xmlns:xs="http://www.w3.org/2001/XMLSchema" targetNamespace="%s" xmlns="%s" '
-            'elementFormDefault="qualified">%s<xs:element name="r"><xs:complexType>%s%s</xs:complexType></xs:element>'
+            'elementFormDefault="qualified" blockDefault="substitution">%s<xs:element name="r"><xs:complexType>%s%s</xs:complexType></xs:element>'
             '</xs:schema>') % (TNS, TNS, globs, oc, to_xsd(shape))
 
 
